@@ -46,7 +46,7 @@ static const MPT_STRUCT(type_traits) *etraits;
 /* rec kind bookkeeping */
 static uint8_t live[MAXID];   /* 0 = not alive, else 1 + value */
 static uint32_t next_id;
-static long n_bad, n_init, n_copy, n_fini, fail_at, fail_mode, fail_next;
+static long n_bad, n_init, n_copy, n_fini, fail_at, fail_mode, fail_next, dfail_at, n_dflt;
 
 static int rec_init(void *ptr, const void *src)
 {
@@ -56,13 +56,15 @@ static int rec_init(void *ptr, const void *src)
 		fail_next = 0;
 		return -1;
 	}
+	if (!s && dfail_at && ++n_dflt == dfail_at) return -1;   /* the k-th default construction fails */
 	if (s) {
 		++n_copy;
 		if (fail_at && n_copy == fail_at) {
 			fail_next = fail_mode;
 			return -1;
 		}
-		if (s->magic != M_LIVE && s->magic != M_SRC) ++n_bad;   /* copy of something that is no element */
+		if (!s->magic && !s->id && !s->val && !s->pad) s = 0;   /* zero filled slot: copies as a default element */
+		else if (s->magic != M_LIVE && s->magic != M_SRC) ++n_bad;   /* copy of something that is no element */
 	}
 	++n_init;
 	e->magic = M_LIVE;
@@ -73,8 +75,14 @@ static int rec_init(void *ptr, const void *src)
 	return s ? 1 : 0;
 }
 static void fini_common(void *ptr);
+static int blank_slot(const void *ptr)
+{
+	const struct elem *e = (const struct elem *) ptr;
+	return !e->magic && !e->id && !e->val && !e->pad;      /* zero filled, never constructed */
+}
 static void rec_fini(void *ptr)
 {
+	if (blank_slot(ptr)) return;
 	if (((struct elem *) ptr)->pad != 0) ++n_bad;     /* not an element of this type */
 	fini_common(ptr);
 }
@@ -136,7 +144,9 @@ static long meta_index(const MPT_INTERFACE(metatype) *m)
 }
 /* idn kind: names by value */
 static const char *idn_names[MAXV + 1] = {
-	"", "a", "the-second-name-is-too-long-for-inline-storage", "three67", "4", "five-five-five-five-five-five-five", "6", "7", "8"
+	/* value 1 fills the inline storage of the 16 byte element exactly (11 characters + terminator),
+	 * 2 is heap allocated, 3 is one short of the inline capacity, 4 one beyond it */
+	"", "exactly11ch", "the-second-name-is-too-long-for-inline-storage", "ten-chars.", "twelve-chars", "five-five-five-five-five-five-five", "6", "a", "8"
 };
 static long idn_index(const MPT_STRUCT(identifier) *id)
 {
@@ -251,6 +261,21 @@ static int first_holder(int i)
 	return i;
 }
 
+
+/* "ok" while every buffer's reference count equals the number of handles holding it */
+static const char *refs_state(void)
+{
+	int i, k;
+	for (i = 0; i < nh; i++) {
+		MPT_STRUCT(buffer) *b = arr[i]._buf;
+		long n = 0;
+		if (!b) continue;
+		for (k = 0; k < nh; k++) if (arr[k]._buf == b) ++n;
+		if ((long) MPT_baseaddr(bufferData, b, buf)->_ref._val != n) return "bad";
+	}
+	return "ok";
+}
+
 static void emit_all(const char *ret)
 {
 	int i, k;
@@ -286,6 +311,8 @@ static void emit_all(const char *ret)
 						if (seen[e->id]) ++dup;
 						seen[e->id] = 1;
 					}
+				} else if (blank_slot(e)) {
+					v = 7;
 				} else {
 					v = -1;
 					if (count_here) ++dead;
@@ -306,6 +333,7 @@ static void emit_all(const char *ret)
 	j_arr_open("typs");
 	for (i = 0; i < nh; i++) j_item_str(name_of(arr[i]._buf));
 	j_arr_close();
+	j_str("refok", refs_state());
 	if (kind == K_META) {
 		j_arr_open("irefs");
 		for (k = 1; k <= nv; k++) j_item_int(metas[k].refs);
@@ -414,6 +442,8 @@ static void drv_step(struct cmd *c)
 	fail_at = (long) drv_int(c, "fail", 0);
 	fail_mode = (long) drv_int(c, "fm", 0);
 	fail_next = 0;
+	dfail_at = (long) drv_int(c, "dfail", 0);
+	n_dflt = 0;
 
 	if (!strcmp(a, "new")) {
 		int flags = (drv_int(c, "imm", 0) ? MPT_ENUM(BufferImmutable) : 0)
@@ -503,7 +533,7 @@ static void drv_step(struct cmd *c)
 		drv_dbg();
 		drv_end();
 	}
-	fail_at = fail_mode = fail_next = 0;
+	fail_at = fail_mode = fail_next = dfail_at = 0;
 	free_src(src, dl);
 	free(data);
 }
